@@ -130,10 +130,28 @@ func unmarshalWiring(p *core.Program, eng *tf.Engine, paramT *types.Named) *wire
 			}
 		}
 	}
-	if wire == nil || wire.K != tf.KAlloc {
+	if wire == nil {
 		return nil
 	}
-	wi.Wire = namedOf(ev.AllocType(wire))
+	if wire.K == tf.KAlloc {
+		wi.Wire = namedOf(ev.AllocType(wire))
+	} else {
+		// a wire struct that is not a local (taken from a pool, handed in by a helper): its type is the static type of
+		// json.Unmarshal's destination; whether a recycled one is clean is C13's O13.5, not the wiring's concern
+		for _, e := range ev.Events() {
+			if callNameHasSuffix(e.Term, "encoding/json.Unmarshal") && len(e.Term.Args) == 2 && e.Ev == ev {
+				if c, ok := e.Instr.(*ssa.Call); ok && len(c.Common().Args) == 2 {
+					if mi, ok := c.Common().Args[1].(*ssa.MakeInterface); ok {
+						if n := namedOf(mi.X.Type()); n != nil && inRepoObj(n.Obj()) {
+							if _, isStruct := n.Underlying().(*types.Struct); isStruct {
+								wi.Wire = n
+							}
+						}
+					}
+				}
+			}
+		}
+	}
 	if wi.Wire == nil {
 		return nil
 	}
